@@ -22,6 +22,8 @@ type Op struct {
 	V     string `json:"v,omitempty"`
 	VI    int    `json:"vi,omitempty"`
 	Nth   int    `json:"nth,omitempty"`
+	// OvSvc: scope of the overriding definition ("" default, shared, contextual, non_shared)
+	Scope string `json:"sc,omitempty"`
 }
 
 func (o Op) String() string {
@@ -31,6 +33,9 @@ func (o Op) String() string {
 	case "OvParam":
 		return fmt.Sprintf("OvParam(%s,%s:%s/%d)", o.Name, o.VKind, o.V, o.VI)
 	case "OvSvc":
+		if o.Scope != "" {
+			return fmt.Sprintf("OvSvc(%s,#%d,%s)", o.Name, o.VI, o.Scope)
+		}
 		return fmt.Sprintf("OvSvc(%s,#%d)", o.Name, o.VI)
 	case "SetEnv":
 		return fmt.Sprintf("SetEnv(%s=%s)", o.Name, o.V)
@@ -201,6 +206,14 @@ func (s *Session) Exec(task, idx int, op Op) (r OpResult) {
 	case "OvSvc":
 		sv := container.NewService()
 		sv.SetConstructor(fx.NewNode, container.NewDependencyValue(op.Name), container.NewDependencyValue(op.VI))
+		switch op.Scope {
+		case "shared":
+			sv.SetScopeShared()
+		case "contextual":
+			sv.SetScopeContextual()
+		case "non_shared":
+			sv.SetScopeNonShared()
+		}
 		s.C.OverrideService(op.Name, sv)
 	case "SetEnv":
 		os.Setenv(op.Name, op.V)
